@@ -53,7 +53,7 @@ def semantics(case, res, tags):
     vios = []
     ex = np.zeros(nlp.n_extra)
     # starting value of the horizon variables is the guess
-    q0 = nlp.read(nlp.x0, extra=ex)
+    q0 = nlp.read(nlp.x0, extra=nlp.extra0)
     if hz in ("Tfree", "bothfree", "Tvar"):
         g = d["Tguess"] if d.get("Tguess") is not None else d["TT"]
         if not NL.close(q0["T"].reshape(-1)[0], g, 1e-12):
